@@ -1,16 +1,92 @@
 """C04 — programs evaluate by the documented context-scoped semantics.
-Generated programs are printed twice (FPy source for the real front end + interpreter,
-S-expression for the Lean evaluator written from the semantics documents) and run on the same inputs."""
+
+Every program is FPy SOURCE TEXT.  It is (1) given to the real front end + interpreter, (2) translated by an
+independent front end written from the language reference (c04front: Python `ast` -> S-expression, builtins resolved
+by name from its own tables) and run on the Lean evaluator (Fpy.Lang.evalE/evalS/evalB, fuel big-step, heap of lists,
+contexts as evaluator argument), and (3) exported from the AST the REAL parser built (langexport, ext mode): texts (2)
+and (3) must be equal function by function — the parser's operator tables / literal folding / scoping are checked
+without running anything.  Value (structural, sign of zero) or error KIND of (1) and (2) must agree on every input.
+
+Program sources: a hand-written corpus pinning documented rules at their edges (corpus/c04_corpus.py), the first
+generation type-directed generator (proggen.Gen, which also prints its own S-expression: a third opinion), and the
+coverage-driven second generation (c04gen.Gen4).  MPFR-valued operations, which the Lean model cannot decide, are
+checked for DISPATCH: the interpreter running `fp.<op>(x)` under context C against `fpy2.ops.<op>(x, ctx=C)` called
+directly by name (and dim/size/logb against an exact Spec computed here).  `BytecodeInterpreter.eval_expr` is checked
+against the model on expression-only programs.
+
+Set VERIF_COVERAGE=1 to measure branch coverage of the code under test during the real-interpreter calls (slow:
+single process); the per-file percentages and the list of never-executed functions / lines go to rep.cov.
+"""
 from __future__ import annotations
-import shutil, importlib.util, os, traceback
-from proggen import *   # noqa
-from langexport import export_program, eval_line, run_real, Unsupported, show_val
+import shutil, importlib.util, os, sys, io, contextlib, traceback, tempfile, json, time
+from fractions import Fraction
+from proggen import Gen, src_func, sx_func
+from common import Prng, run_driver, DRV
+from langexport import export_program, eval_line, Unsupported, show_val, val_sexp, ctx_sexp, PY_ERRS
+from numcanon import err_name
+import c04gen, c04front
 import fpy2 as fp
 
 PROP = 'C04'
 
 REALS = [1.5, -2.25, 0.1, 3.0, 1e-3, 100.0, -0.0, 0.0, float('inf'), float('-inf'), float('nan'), 1e300, -7.0, 0.3, 65504.0, 2.0 ** -30, 5, -3, 2.0 ** 20, 2.0 ** 100, -(2.0 ** -26)]
-CALL_CTXS = [None, None, None, 'fp.FP32', 'fp.REAL', 'fp.IEEEContext(5, 16, fp.RM.RTZ)', 'fp.MPFloatContext(4, fp.RM.RNA)', 'fp.FixedContext(True, -4, 16, fp.RM.RNE, fp.OV.SATURATE)']
+CALL_CTXS = c04gen.CALL_CTXS
+NWORKERS = int(os.environ.get('VERIF_WORKERS', '12'))
+COV_INCLUDE = ['fpy2/interpret/*', 'fpy2/ops.py', 'fpy2/frontend/parser.py', 'fpy2/frontend/__init__.py', 'fpy2/ast/fpyast.py', 'fpy2/decorator.py',
+               'fpy2/function.py', 'fpy2/primitive.py', 'fpy2/analysis/syntax_check.py']
+
+# the model has no RuntimeError kind: `ops.nearbyint` under the real context (a RuntimeError in the code) is its AssertionError
+ERR_CANON = {'err RuntimeError': 'err AssertionError'}
+
+def canon(got: str) -> str: return ERR_CANON.get(got, got)
+
+def guarded(thunk, timeout_s=4) -> str:
+    """run `thunk()` (a call into the real interpreter) under an alarm; canonical outcome line.  The alarm handler is
+    disarmed before anything outside the guarded region runs (a late SIGALRM on a loaded machine must not escape)."""
+    import signal
+    armed = [True]; fired = [False]
+    def on_alarm(signum, frame):
+        if armed[0]:
+            armed[0] = False; fired[0] = True
+            raise TimeoutError('timeout')
+    old = signal.signal(signal.SIGALRM, on_alarm)
+    signal.alarm(timeout_s)
+    try:
+        try:
+            v = thunk()
+            armed[0] = False
+        except TimeoutError:
+            return 'timeout'
+        except Exception as e:   # noqa
+            armed[0] = False
+            if fired[0]: return 'timeout'      # the alarm went off inside a C extension call (surfaces as SystemError or a wrapped error)
+            n = err_name(e)
+            return 'err ' + PY_ERRS.get(n, n)
+        try:
+            return 'ok ' + show_val4(v)
+        except Unsupported as e:
+            return f'unsupported {e}'
+    finally:
+        armed[0] = False
+        signal.alarm(0); signal.signal(signal.SIGALRM, old)
+
+def copy_arg(x):
+    """containers are rebuilt (the interpreter must not be handed the harness's own lists), scalars and contexts are shared
+    (`fp.REAL` is recognised by identity: a deep copy of it is a different context)"""
+    if isinstance(x, list): return [copy_arg(y) for y in x]
+    if isinstance(x, tuple): return tuple(copy_arg(y) for y in x)
+    return x
+
+def show_val4(v) -> str:
+    """`show_val`, with an opaque constant (a string, None) printed as the placeholder the model carries for it"""
+    if v is None or isinstance(v, str): return '(b 1)'
+    if isinstance(v, list): return '(l ' + ' '.join(show_val4(x) for x in v) + ')' if v else '(l )'
+    if isinstance(v, tuple): return '(t ' + ' '.join(show_val4(x) for x in v) + ')' if v else '(t )'
+    return show_val(v)
+
+def run_real(fn, args, ctx=None, timeout_s=4) -> str:
+    a = [copy_arg(x) for x in args]
+    return guarded((lambda: fn(*a, ctx=ctx)) if ctx is not None else (lambda: fn(*a)), timeout_s)
 
 def top_level(sx: str) -> list[str]:
     """the top-level items of '( … )' (function definitions of a program)"""
@@ -23,99 +99,979 @@ def top_level(sx: str) -> list[str]:
             if depth == 0: out.append(cur); cur = ''
     return out
 
-def load_one(path):
-    spec = importlib.util.spec_from_file_location('fpyverif_' + os.path.basename(os.path.dirname(path)) + '_' + os.path.basename(path)[:-3], path)
+_FRONTS: dict = {}    # path -> c04front.Front (per process)
+_MODS: dict = {}      # modules loaded by the parent before the workers fork (the corpus)
+
+def load_one(path, tag=''):
+    if path in _MODS: return _MODS[path]
+    name = 'fpyverif_c04_' + tag + os.path.basename(os.path.dirname(path)) + '_' + os.path.basename(path)[:-3]
+    spec = importlib.util.spec_from_file_location(name, path)
     mod = importlib.util.module_from_spec(spec)
-    import sys
     sys.modules[spec.name] = mod
     spec.loader.exec_module(mod)
     return mod
+
+def arg_kinds(fn) -> list[str]:
+    """argument types of a corpus function from its annotations: R / B / L / LL / P / C"""
+    from fpy2.ast import fpyast as A
+    out = []
+    for a in fn.ast.args:
+        t = a.type
+        if isinstance(t, A.ListTypeAnn): out.append('LL' if isinstance(t.elt, A.ListTypeAnn) else 'L')
+        elif isinstance(t, A.BoolTypeAnn): out.append('B')
+        elif isinstance(t, A.TupleTypeAnn): out.append('P')
+        else: out.append('R')
+    return out
+
+def ev(src):
+    return None if src is None else c04gen.eval_input(src)
+
+def node_kinds(fn, acc: dict):
+    """class names of the AST nodes of a real FPy function (mechanical walk over __slots__)"""
+    from fpy2.ast import fpyast as A
+    seen = set()
+    def walk(x):
+        if isinstance(x, A.Ast):
+            if id(x) in seen: return
+            seen.add(id(x))
+            acc[type(x).__name__] = acc.get(type(x).__name__, 0) + 1
+            for cls in type(x).__mro__:
+                for s in getattr(cls, '__slots__', ()):
+                    if s in ('_loc', 'fn', '_meta'): continue
+                    try: walk(getattr(x, s))
+                    except AttributeError: pass
+        elif isinstance(x, (list, tuple)):
+            for y in x: walk(y)
+    walk(fn.ast)
+
+# ------------------------------------------------------------------------------------------------ one program (worker side)
+
+def run_program(job: dict) -> dict:
+    """import the program, translate it twice, run every input on the real interpreter.  Pure function of `job`."""
+    res = {'id': job['id'], 'kind': job['kind'], 'counts': {}, 'notes': [], 'broke': [], 'runs': [], 'front': None, 'kinds': {}}
+    cnt = res['counts']
+    def count(k, n=1): cnt[k] = cnt.get(k, 0) + n
+    try:
+        with contextlib.redirect_stdout(io.StringIO()):
+            mod = job.get('_mod') or load_one(job['path'], job['kind'])
+    except Exception as e:   # the front end rejected a program the generator believes well-formed
+        count('frontend-rejected:' + type(e).__name__)
+        res['notes'].append(f"front end rejected program {job['id']}: {type(e).__name__}: {str(e)[:200]}")
+        return res
+    fn = getattr(mod, job['entry'])
+    twins = {k: getattr(mod, v) for k, v in (getattr(mod, 'C04_TWINS', {}) or {}).items()}
+    # (2) the independent front end
+    front = None
+    try:
+        _, front = c04front.front_program(job['path'], mod, job['entry'], _FRONTS)
+    except Unsupported as e:
+        count('front-unsupported:' + str(e)[:60])
+    except Exception as e:
+        res['broke'].append(('harness', 'c04front', f"{job['id']}: {traceback.format_exc()[-1500:]}"))
+    # (3) the real parser's AST in the same notation
+    exported = None
+    try:
+        _, exported = export_program(fn, ext=True, twins=twins)
+        node_kinds(fn, res['kinds'])
+    except Unsupported as e:
+        count('export-unsupported:' + str(e)[:60])
+    except Exception as e:
+        res['broke'].append(('harness', 'langexport', f"{job['id']}: {traceback.format_exc()[-1500:]}"))
+    if front is None and exported is None:
+        # a construct the model cannot decide: the two front ends are still compared as TEXT (opaque operators), nothing is evaluated
+        try:
+            _, tf = c04front.front_program(job['path'], mod, job['entry'], _FRONTS, lenient=True)
+            _, te = export_program(fn, ext=True, twins=twins, lenient=True)
+            node_kinds(fn, res['kinds'])
+            count('text-only-programs')
+            if tf != te:
+                a, b = top_level(tf), top_level(te)
+                d = next(((x, y) for x, y in zip(a, b) if x != y), (f'{len(a)} functions', f'{len(b)} functions'))
+                count('parser-vs-source-differs')
+                res['broke'].append(('correspondence', 'C04.parser', f"program {job['id']} ({job['path']}): the AST produced by the real parser differs from the source text "
+                                     f"as the language reference reads it\nsource text : {d[0][:1500]}\nreal parser : {d[1][:1500]}"))
+        except Unsupported as e:
+            count('text-unsupported:' + str(e)[:60])
+        except Exception:
+            res['broke'].append(('harness', 'c04front-lenient', f"{job['id']}: {traceback.format_exc()[-1500:]}"))
+    if front is not None and exported is not None and front != exported:
+        # C04-F2 (known): the parser reads a decimal literal through a Python float
+        try:
+            _, front_q = c04front.Front(job['path'], mod, quirks={'literal-via-float'}).program(job['entry'])
+        except Exception:
+            front_q = None
+        if front_q == exported:
+            a, b = top_level(front), top_level(exported)
+            d = next(((x, y) for x, y in zip(a, b) if x != y), ('', ''))
+            res['f2'] = literal_diff(d[0], d[1])
+            count('parser-vs-source-differs:C04-F2')
+            exported = front
+    if front is not None and exported is not None and front != exported:
+        a, b = top_level(front), top_level(exported)
+        diff = [(x, y) for x, y in zip(a, b) if x != y]
+        d = diff[0] if diff else (f'{len(a)} functions', f'{len(b)} functions')
+        count('parser-vs-source-differs')
+        res['broke'].append(('correspondence', 'C04.parser', f"program {job['id']} ({job['path']}): the AST produced by the real parser differs from the source text "
+                             f"as the language reference reads it\nsource text : {d[0][:1500]}\nreal parser : {d[1][:1500]}"))
+    if job.get('gen_sx') and front is not None:
+        # first-generation programs: the generator's own S-expression is a third opinion
+        if not set(top_level(front)) <= set(top_level(job['gen_sx'])):
+            count('generator-vs-source-differs')
+            res['broke'].append(('correspondence', 'C04.parser', f"program {job['id']}: independent front end and generator printer disagree\nfront:{front[:1500]}\ngen:  {job['gen_sx'][:1500]}"))
+    res['front'] = front if front is not None else exported        # what the evaluator runs (the source-text reading when available)
+    res['front_is'] = 'source' if front is not None else ('parser' if exported is not None else None)
+    count('programs')
+    if res['front'] is None:
+        return res
+    for args_src, ctx_src in job['inputs']:
+        try:
+            args = tuple(ev(a) for a in args_src)
+            ctx = ev(ctx_src)
+        except Exception as e:
+            res['runs'].append(None); count('skipped:bad-input'); continue
+        before = [show_arg(a) for a in args]
+        with contextlib.redirect_stdout(io.StringIO()):
+            got = run_real(fn, args, ctx)
+        if got.startswith(('timeout', 'unsupported')):
+            count('skipped:' + got.split()[0]); res['runs'].append(None)
+            if got.startswith('timeout') and len(res['notes']) < 2: res['notes'].append(f"timeout: {job['id']} args={args_src} ctx={ctx_src}")
+            continue
+        try:
+            line = eval_line(job['entry'], res['front'], args, ctx, fuel=100000)
+        except Unsupported as e:
+            count('skipped:input-' + str(e)[:30]); res['runs'].append(None); continue
+        mutated = [show_arg(a) for a in args] != before          # `run_real` hands the callee a deep copy: never true; kept as a guard
+        res['runs'].append({'args': list(args_src), 'ctx': ctx_src, 'got': got, 'line': line, 'mutated': mutated})
+    return res
+
+def literal_diff(a: str, b: str) -> str:
+    """the first `(num …)` token on which two program texts differ"""
+    ta, tb = a.split(), b.split()
+    for x, y in zip(ta, tb):
+        if x != y: return f'{x.rstrip(")")} (source text) vs {y.rstrip(")")} (real parser)'
+    return ''
+
+def show_arg(a) -> str:
+    try: return val_sexp(a)
+    except Exception: return repr(a)
+
+# ------------------------------------------------------------------------------------------------ MPFR-valued operations: dispatch
+
+MPFR_UNARY = ['acos', 'asin', 'atan', 'cos', 'sin', 'tan', 'acosh', 'asinh', 'atanh', 'cosh', 'sinh', 'tanh', 'exp', 'exp2', 'expm1', 'log', 'log10',
+              'log1p', 'log2', 'erf', 'erfc', 'lgamma', 'tgamma', 'logb', 'isnormal', 'cbrt', 'sqrt']
+MPFR_BINARY = ['atan2', 'pow', 'hypot', 'fmod', 'remainder', 'copysign', 'fdim']
+MPFR_CONSTS = ['const_pi', 'const_e', 'const_log2e', 'const_log10e', 'const_ln2', 'const_pi_2', 'const_pi_4', 'const_1_pi', 'const_2_pi', 'const_2_sqrt_pi',
+               'const_sqrt2', 'const_sqrt1_2', 'nan', 'inf']
+
+def dispatch_source() -> str:
+    out = ['import fpy2 as fp', '']
+    for n in MPFR_UNARY:
+        out += ['@fp.fpy', f'def d1_{n}(x):', f'    return fp.{n}(x)', '',
+                '@fp.fpy', f'def d1w_{n}(x, c):', '    with fp.MPFloatContext(2, fp.RM.RTZ):', '        with c:', f'            y = fp.{n}(x)', '        z = x * 1', '    return (y, z)', '']
+    for n in MPFR_BINARY:
+        out += ['@fp.fpy', f'def d2_{n}(x, y):', f'    return fp.{n}(x, y)', '',
+                '@fp.fpy', f'def d2w_{n}(x, y, c):', '    with c:', f'        r = [fp.{n}(a, y) for a in [x, y]]', '    return r', '']
+    for n in MPFR_CONSTS:
+        out += ['@fp.fpy', f'def d0_{n}():', f'    return fp.{n}()', '',
+                '@fp.fpy', f'def d0w_{n}(c):', '    with fp.MPFloatContext(2, fp.RM.RTZ):', '        with c:', f'            y = fp.{n}()', f'        z = fp.{n}()', '    return (y, z)', '']
+    out += ['@fp.fpy', 'def dop_pow(x, y):', '    return x ** y', '', '@fp.fpy', 'def dop_pow_half(x):', '    return (x ** 0.5, x ** 1.5, x ** -0.5, fp.pow(x, 0.5), 2 ** x)', '',
+            '@fp.fpy', 'def dop_mod(x, y):', '    return (x % y, fp.fmod(x, y), fp.remainder(x, y))', '']
+    out += ['@fp.fpy', 'def d_dim(xs, c):', '    with c:', '        r = (fp.dim(xs), fp.size(xs, 0), len(xs))', '    return r', '',
+            '@fp.fpy', 'def d_size1(xss, c):', '    with c:', '        r = fp.size(xss, 1)', '    return r', '']
+    return '\n'.join(out)
+
+def as_value(x):
+    """a Python argument as the FPy value the boundary makes of it (documented: int/float are exact, nothing rounds)"""
+    from fpy2.number import Float
+    if isinstance(x, bool) or isinstance(x, (Fraction, Float)): return x
+    if isinstance(x, int): return Float.from_int(x, ctx=fp.INTEGER, checked=False)
+    if isinstance(x, float): return Float.from_float(x, ctx=fp.FP64, checked=False)
+    return x
+
+def direct(name, args, ctx):
+    """`fpy2.ops.<name>(*args, ctx=ctx)` called directly, as a canonical outcome line"""
+    import fpy2.ops as ops
+    try:
+        return 'ok ' + show_val(getattr(ops, name)(*[as_value(a) for a in args], ctx=ctx))
+    except Exception as e:
+        from numcanon import err_name
+        return 'err ' + err_name(e)
+
+def run_dispatch(rep, R, tmp, tier):
+    """interpreter(fp.op(x) under C)  ==  ops.op(x, ctx=C)  for every operation the Lean model does not decide"""
+    path = os.path.join(tmp, 'dispatch.py')
+    with open(path, 'w') as fh: fh.write(dispatch_source())
+    mod = load_one(path, 'dispatch')
+    ctxs = ['fp.FP64', 'fp.FP32', 'fp.MPFloatContext(3, fp.RM.RTP)', 'fp.IEEEContext(5, 16, fp.RM.RTZ)', 'fp.FixedContext(True, -4, 12, fp.RM.RNE, fp.OV.SATURATE)',
+            'fp.MPFixedContext(-3, fp.RM.RTN)', 'fp.MPFloatContext(1, fp.RM.RNE)', 'fp.MPSFloatContext(5, -3, fp.RM.RAZ)']
+    xs = [0.5, 1.0, 2.5, -0.75, 0.0, -0.0, 1e-3, 10.0, float('inf'), float('-inf'), float('nan'), 3, Fraction(1, 3), 0.1, -2.0, 1e-310, 700.0]
+    n = 3 if tier == 'quick' else 12
+    FP64 = fp.FP64
+    def check(what, got, want, replay):
+        rep.cov['evaluations'] += 1
+        rep.count('dispatch:' + what.split('(')[0].split('_')[0])
+        if got != want:
+            rep.violation(f'{what}: the interpreter returns {got[:90]} but the operation the node denotes, applied under the active context, gives {want[:90]}',
+                          dict(replay, impl=got, documented_semantics=want, finding=None, oracle='dispatch'))
+    for name in MPFR_UNARY:
+        for _ in range(n):
+            x = R.choice(xs); cs = R.choice(ctxs); c = ev(cs)
+            got = run_real(getattr(mod, f'd1_{name}'), (x,), c)
+            check(f'fp.{name}({x!r}) under {cs}', got, direct(name, (x,), c), {'program': f'd1_{name}', 'args': repr((x,)), 'ctx': cs})
+            got = run_real(getattr(mod, f'd1w_{name}'), (x, c), None)
+            y = direct(name, (x,), c); z = direct('mul', (x, 1), fp.MPFloatContext(2, fp.RM.RTZ))
+            want = f'ok (t {y[3:]} {z[3:]})' if y.startswith('ok') and z.startswith('ok') else (y if y.startswith('err') else z)
+            check(f'with C: fp.{name}({x!r}) then the outer context, C = {cs}', got, want, {'program': f'd1w_{name}', 'args': repr((x, cs)), 'ctx': None})
+    for name in MPFR_BINARY:
+        for _ in range(n):
+            x, y = R.choice(xs), R.choice(xs); cs = R.choice(ctxs); c = ev(cs)
+            got = run_real(getattr(mod, f'd2_{name}'), (x, y), c)
+            check(f'fp.{name}({x!r}, {y!r}) under {cs}', got, direct(name, (x, y), c), {'program': f'd2_{name}', 'args': repr((x, y)), 'ctx': cs})
+            got = run_real(getattr(mod, f'd2w_{name}'), (x, y, c), None)
+            a, b = direct(name, (x, y), c), direct(name, (y, y), c)
+            want = f'ok (l {a[3:]} {b[3:]})' if a.startswith('ok') and b.startswith('ok') else (a if a.startswith('err') else b)
+            check(f'[fp.{name}(a, {y!r}) for a in [{x!r}, {y!r}]] under {cs}', got, want, {'program': f'd2w_{name}', 'args': repr((x, y, cs)), 'ctx': None})
+    for name in MPFR_CONSTS:
+        for cs in R.sample(ctxs, min(n, len(ctxs))):
+            c = ev(cs)
+            got = run_real(getattr(mod, f'd0_{name}'), (), c)
+            check(f'fp.{name}() under {cs}', got, direct(name, (), c), {'program': f'd0_{name}', 'args': '()', 'ctx': cs})
+            got = run_real(getattr(mod, f'd0w_{name}'), (c,), None)
+            y = direct(name, (), c); z = direct(name, (), fp.MPFloatContext(2, fp.RM.RTZ))
+            want = f'ok (t {y[3:]} {z[3:]})' if y.startswith('ok') and z.startswith('ok') else (y if y.startswith('err') else z)
+            check(f'with C: fp.{name}() then the outer context, C = {cs}', got, want, {'program': f'd0w_{name}', 'args': repr((cs,)), 'ctx': None})
+    # operator spellings of undecided operations: `x ** y` with a non-integer exponent is the operation pow, not a rewrite of it
+    def tup(*parts):
+        return 'ok (t ' + ' '.join(q[3:] for q in parts) + ')' if all(q.startswith('ok') for q in parts) else next(q for q in parts if q.startswith('err'))
+    half, three_half, mhalf = Fraction(1, 2), Fraction(3, 2), Fraction(-1, 2)
+    for x in xs:      # (every special value: a rewrite of `**` for one exponent shows only at a few operands, e.g. -0.0 ** 0.5)
+        y = R.choice(xs); cs = R.choice(ctxs); c = ev(cs)
+        check(f'{x!r} ** {y!r} under {cs}', run_real(mod.dop_pow, (x, y), c), direct('pow', (x, y), c), {'program': 'dop_pow', 'args': repr((x, y)), 'ctx': cs})
+        want = tup(direct('pow', (x, half), c), direct('pow', (x, three_half), c), direct('pow', (x, mhalf), c), direct('pow', (x, half), c), direct('pow', (Fraction(2), x), c))
+        check(f'(x ** 0.5, x ** 1.5, x ** -0.5, fp.pow(x, 0.5), 2 ** x) at x = {x!r} under {cs}', run_real(mod.dop_pow_half, (x,), c), want, {'program': 'dop_pow_half', 'args': repr((x,)), 'ctx': cs})
+        want = tup(direct('mod', (x, y), c), direct('fmod', (x, y), c), direct('remainder', (x, y), c))
+        check(f'(x % y, fmod, remainder) at ({x!r}, {y!r}) under {cs}', run_real(mod.dop_mod, (x, y), c), want, {'program': 'dop_mod', 'args': repr((x, y)), 'ctx': cs})
+    # logb against its definition: the exponent e with 2**e <= |x| < 2**(e+1), rounded under the context (an exact integer otherwise)
+    for x in xs + [Fraction(1, 10), Fraction(3, 7), Fraction(-5, 3), 12.0, 0.75, 1e-300, Fraction(1, 1024), Fraction(7, 1024), Fraction(2, 3), Fraction(1, 100), Fraction(100, 3)]:
+        cs = R.choice(ctxs); c = ev(cs)
+        got = run_real(getattr(mod, 'd1_logb'), (x,), c)
+        try:
+            from fpy2.number import Float, RealFloat
+            if isinstance(x, float) and x != x: want = 'ok ' + show_val(c.round(Float(isnan=True)))
+            elif isinstance(x, float) and x in (float('inf'), float('-inf')): want = 'ok ' + show_val(c.round(Float(isinf=True)))
+            elif x == 0: want = 'ok ' + show_val(c.round(Float(s=True, isinf=True)))
+            else:
+                q = abs(Fraction(x)); e = q.numerator.bit_length() - q.denominator.bit_length()
+                if q < Fraction(2) ** e: e -= 1
+                assert Fraction(2) ** e <= q < Fraction(2) ** (e + 1)
+                want = 'ok ' + show_val(c.round(RealFloat.from_int(e)))
+        except Exception as ex:
+            want = 'err ' + err_name(ex)
+        check(f'fp.logb({x!r}) under {cs} (definition: floor(log2|x|))', got, want, {'program': 'd1_logb', 'args': repr((x,)), 'ctx': cs})
+    # dim / size / len: "exact integer counts, no rounding" (derived-semantics.rst, Lists)
+    for it in range(2 * n):
+        cs = R.choice(ctxs); c = ev(cs)
+        k = R.choice([0, 1, 2, 3, 5, 9])
+        nested = R.random() < 0.4
+        if it == 0: cs, k, nested = 'fp.MPFloatContext(1, fp.RM.RNE)', 3, False; c = ev(cs)      # (the known C04-F1 reproduces on every run)
+        xs_ = [[1.0, 2.0, 3.0][:R.choice([1, 2, 3])] for _ in range(k)] if nested and k > 0 else [float(i) for i in range(k)]
+        got = run_real(mod.d_dim, (xs_, c), None)
+        want = 'ok ' + show_val((2 if nested and k > 0 else 1, k, k))
+        rep.cov['evaluations'] += 1; rep.count('dispatch:dim-size-len')
+        if got != want:
+            fid = None
+            # C04-F1: the count is rounded under the active context (differs exactly when the count is not representable there)
+            try:
+                rounded = 'ok ' + show_val((c.round(2 if nested and k > 0 else 1), c.round(k), Fraction(k)))
+                if got == rounded: fid = 'C04-F1'
+            except Exception: pass
+            rep.violation(f'(fp.dim(xs), fp.size(xs, 0), len(xs)) for a list of {k} elements under {cs} is {got[:80]}; the reference says exact integer counts, no rounding: {want[:60]}',
+                          {'program': 'd_dim', 'args': repr((xs_, cs)), 'ctx': None, 'impl': got, 'documented_semantics': want, 'finding': fid, 'oracle': 'spec-counts'})
+    for _ in range(n):
+        cs = R.choice(ctxs); c = ev(cs)
+        rows, cols = R.choice([1, 2, 3]), R.choice([0, 1, 2, 5])
+        xss = [[float(i) for i in range(cols)] for _ in range(rows)]
+        got = run_real(mod.d_size1, (xss, c), None)
+        want = 'ok ' + show_val(cols)
+        rep.cov['evaluations'] += 1; rep.count('dispatch:size-inner')
+        if got != want:
+            fid = None
+            try:
+                if got == 'ok ' + show_val(c.round(cols)): fid = 'C04-F1'
+            except Exception: pass
+            rep.violation(f'fp.size(xss, 1) for {rows}x{cols} under {cs} is {got[:80]}; the reference says exact integer counts, no rounding: {want[:60]}',
+                          {'program': 'd_size1', 'args': repr((xss, cs)), 'ctx': None, 'impl': got, 'documented_semantics': want, 'finding': fid, 'oracle': 'spec-counts'})
+    return mod
+
+# ------------------------------------------------------------------------------------------------ eval_expr
+
+def run_eval_expr(rep, R, tmp, tier, lines, meta):
+    """`BytecodeInterpreter.eval_expr(e, env, ctx)` against the model on expression-only programs (the model runs `return e`)"""
+    from fpy2.interpret import get_default_interpreter
+    from fpy2.utils import NamedId
+    n = 60 if tier == 'quick' else 400
+    src = ['import fpy2 as fp', '']
+    for i in range(n):
+        g = c04gen.Gen4(Prng(R.getrandbits(32), 'expr'), f'x{i}', risk=0.1)
+        env = {'a0': 'R', 'a1': 'R', 'a2': 'L'}
+        kind = R.choice(['R', 'R', 'B', 'L'])
+        e = g.real(env, 3) if kind == 'R' else (g.boolean(env, 3) if kind == 'B' else g.lst(env, 2))
+        src += ['@fp.fpy', f'def ex{i}(a0, a1, a2):', f'    return {e}', '']
+    path = os.path.join(tmp, 'exprs.py')
+    with open(path, 'w') as fh: fh.write('\n'.join(src))
+    with contextlib.redirect_stdout(io.StringIO()):
+        mod = load_one(path, 'exprs')
+    rt = get_default_interpreter()
+    cache = {}
+    for i in range(n):
+        fn = getattr(mod, f'ex{i}')
+        try:
+            _, prog = c04front.front_program(path, mod, f'ex{i}', cache)
+        except Unsupported as e:
+            rep.count('front-unsupported:' + str(e)[:60]); continue
+        expr = fn.ast.body.stmts[-1].expr
+        for _ in range(3 if tier == 'quick' else 6):
+            args_src = [c04gen.input_src(R, 'R'), c04gen.input_src(R, 'R'), c04gen.input_src(R, 'L')]
+            cs = R.choice([c for c in CALL_CTXS if c is not None])
+            args = [ev(a) for a in args_src]; ctx = ev(cs)
+            env_ = {NamedId('a0'): args[0], NamedId('a1'): args[1], NamedId('a2'): args[2]}
+            got = guarded(lambda: rt.eval_expr(expr, env_, ctx))
+            if got.startswith(('timeout', 'unsupported')): continue
+            lines.append(eval_line(f'ex{i}', prog, args, ctx, fuel=100000))
+            meta.append({'kind': 'eval_expr', 'id': f'ex{i}', 'path': path, 'entry': f'ex{i}', 'args': args_src, 'ctx': cs, 'got': got})
+            rep.count('eval_expr-evaluations')
+
+# ------------------------------------------------------------------------------------------------ expected errors
+
+EXPECT_SRC = '''import fpy2 as fp
+
+@fp.fpy
+def e_helper(x):
+    return x + 1
+
+@fp.fpy
+def e_kwargs_to_fpy(x):
+    return e_helper(x=x)
+
+@fp.fpy
+def e_call_python(x):
+    return float(x)
+
+@fp.fpy
+def e_ctx_unknown_keyword(x):
+    with fp.IEEEContext(5, 16, bogus=1):
+        y = x + 1
+    return y
+
+@fp.fpy_primitive
+def e_prim(x: fp.Float) -> fp.Float:
+    return x
+
+@fp.fpy
+def e_kwargs_to_primitive(x):
+    return e_prim(x=x)
+
+@fp.fpy
+def e_kwargs_to_python(x):
+    return float(x=x)
+
+@fp.fpy
+def e_ctx_maxval_not_finite(x):
+    with fp.MPBFloatContext(4, -5, x * fp.inf()):
+        y = x + 1
+    return y
+
+@fp.fpy
+def e_ctx_maxval_not_dyadic(x):
+    with fp.MPBFloatContext(4, -5, x / 3 + fp.rational(1, 7)):
+        y = x + 1
+    return y
+
+@fp.fpy
+def e_fp_neg_is_not_an_fpy_operation(x):
+    return fp.neg(x)
+
+@fp.fpy
+def e_branch_on_foreign(x):
+    s = None
+    if s:
+        y = 1
+    else:
+        y = 2
+    return y
+'''
+EXPECT = [('e_kwargs_to_fpy', 'RuntimeError'), ('e_call_python', 'RuntimeError'), ('e_ctx_unknown_keyword', 'TypeError'), ('e_kwargs_to_primitive', 'RuntimeError'),
+          ('e_branch_on_foreign', 'TypeError'), ('e_kwargs_to_python', 'RuntimeError'), ('e_ctx_maxval_not_finite', 'ValueError'),
+          ('e_ctx_maxval_not_dyadic', 'TypeError'), ('e_fp_neg_is_not_an_fpy_operation', 'RuntimeError')]
+
+def run_expected(rep, tmp):
+    path = os.path.join(tmp, 'expected.py')
+    with open(path, 'w') as fh: fh.write(EXPECT_SRC)
+    mod = load_one(path, 'expected')
+    for name, kind in EXPECT:
+        for x in (1.5, Fraction(1, 3)):
+            got = run_real(getattr(mod, name), (x,), None)
+            rep.cov['evaluations'] += 1; rep.count('expected-error')
+            if got != 'err ' + kind:
+                rep.violation(f'{name}({x!r}) gives {got[:80]}; the reference refuses this program with {kind}',
+                              {'program': EXPECT_SRC, 'entry': name, 'args': repr((x,)), 'ctx': None, 'impl': got, 'documented_semantics': 'err ' + kind, 'finding': None, 'oracle': 'expected-error'})
+
+# ------------------------------------------------------------------------------------------------ equivalent formulations (constructs the model has no node for)
+
+EQUIV_SRC = '''import fpy2 as fp
+
+# attributes of run-time values (`_eval_attribute`): a native number read from a context is an exact numerical value
+@fp.fpy
+def q_attr(x):
+    with fp.IEEEContext(5, 16, fp.RM.RTZ) as c:
+        y = x * 1.1
+    with fp.MPFloatContext(2, fp.RM.RNE):
+        with fp.MPFloatContext(c.es + 3, c.rm):
+            z = x / 3
+        w = c.nbits / 3
+    return (y, z, w, c.es, c.nbits + 0.5)
+
+@fp.fpy
+def q_attr_plain(x):
+    with fp.IEEEContext(5, 16, fp.RM.RTZ):
+        y = x * 1.1
+    with fp.MPFloatContext(2, fp.RM.RNE):
+        with fp.MPFloatContext(5 + 3, fp.RM.RTZ):
+            z = x / 3
+        w = 16 / 3
+    return (y, z, w, 5, 16 + 0.5)
+
+# two different functions with the same name (one per factory): each call runs ITS body
+def _mk_a():
+    @fp.fpy
+    def kernel(x):
+        return x * 3
+    return kernel
+
+def _mk_b():
+    @fp.fpy
+    def kernel(x):
+        return x + 100
+    return kernel
+
+kernel_a = _mk_a()
+kernel_b = _mk_b()
+
+@fp.fpy
+def q_same_name_a(x):
+    return x * 3
+
+@fp.fpy
+def q_same_name_b(x):
+    return x + 100
+'''
+EQUIV = [('q_attr', 'q_attr_plain'), ('kernel_a', 'q_same_name_a'), ('kernel_b', 'q_same_name_b'), ('kernel_a', 'q_same_name_a')]
+
+def run_equiv(rep, R, tmp, tier):
+    """pairs of programs that must agree on every input (the right-hand one uses modelled constructs only and is itself
+    checked against the Lean evaluator as an ordinary program)"""
+    path = os.path.join(tmp, 'equiv.py')
+    with open(path, 'w') as fh: fh.write(EQUIV_SRC)
+    mod = load_one(path, 'equiv')
+    jobs = []
+    for a, b in EQUIV:
+        for _ in range(4 if tier == 'quick' else 20):
+            x = ev(c04gen.input_src(R, 'R')); cs = R.choice(CALL_CTXS); c = ev(cs)
+            ga, gb = run_real(getattr(mod, a), (x,), c), run_real(getattr(mod, b), (x,), c)
+            rep.cov['evaluations'] += 1; rep.count('equiv-pairs')
+            if ga.startswith('timeout') or gb.startswith('timeout'): continue
+            if ga != gb:
+                rep.violation(f'{a}({x!r}) gives {ga[:90]} but the equivalent program {b} gives {gb[:90]}',
+                              {'program': EQUIV_SRC, 'entry': a, 'args': repr((x,)), 'ctx': cs, 'impl': ga, 'documented_semantics': gb, 'finding': None, 'oracle': 'equivalent-formulation'})
+    inputs = [([c04gen.input_src(R, 'R')], R.choice(CALL_CTXS)) for _ in range(6)]
+    return [{'id': f'equiv:{n}', 'kind': 'equiv', 'path': path, 'entry': n, 'inputs': inputs} for n in ('q_attr_plain', 'q_same_name_a', 'q_same_name_b')]
+
+# ------------------------------------------------------------------------------------------------ programs the front end must refuse
+
+REFUSED = {
+    'slice-step': 'def f(xs):\n    return xs[0:2:1]',
+    'comprehension-if': 'def f(xs):\n    return [x for x in xs if x > 0]',
+    'while-else': 'def f(x):\n    while x > 0:\n        x = x - 1\n    else:\n        x = 0\n    return x',
+    'for-else': 'def f(xs):\n    s = 0\n    for x in xs:\n        s = s + x\n    else:\n        s = 0\n    return s',
+    'multiple-targets': 'def f(x):\n    a = b = x\n    return a',
+    'star-kwargs': 'def f(x):\n    d = x\n    return fp.MPFloatContext(**d)',
+    'lambda': 'def f(x):\n    g = lambda y: y\n    return x',
+    'bare-return': 'def f(x):\n    return',
+    'two-with-items': 'def f(x):\n    with fp.FP32, fp.FP64:\n        y = x\n    return y',
+    'with-tuple-target': 'def f(x):\n    with fp.FP32 as (a, b):\n        y = x\n    return y',
+    'augassign-subscript': 'def f(xs):\n    xs[0] += 1\n    return xs',
+    'annassign-subscript': 'def f(xs):\n    xs[0]: fp.Real = 1\n    return xs',
+    'attribute-target': 'def f(x):\n    x.y = 1\n    return x',
+    'starred-target': 'def f(xs):\n    a, *b = xs\n    return a',
+    'bitwise-operator': 'def f(x):\n    return x | x',
+    'floor-division': 'def f(x):\n    return x // 2',
+    'matmul': 'def f(x):\n    return x @ x',
+    'invert': 'def f(x):\n    return ~x',
+    'is-comparator': 'def f(x):\n    return x is x',
+    'in-comparator': 'def f(x, xs):\n    return x in xs',
+    'dict-literal': 'def f(x):\n    return {1: x}',
+    'set-comprehension': 'def f(xs):\n    return {x for x in xs}',
+    'generator-expression': 'def f(xs):\n    return sum(x for x in xs)',
+    'fstring': 'def f(x):\n    return f"{x}"',
+    'complex-constant': 'def f(x):\n    return 1j',
+    'unbound-variable': 'def f(x):\n    return y',
+    'bound-on-one-path': 'def f(x):\n    if x > 0:\n        y = 1\n    return y',
+    'loop-variable-after-loop': 'def f(xs):\n    for e in xs:\n        pass\n    return e',
+    'wildcard-read': 'def f(x):\n    _ = x\n    return _',
+    'varargs': 'def f(*xs):\n    return 0',
+    'kwargs-parameter': 'def f(**kw):\n    return 0',
+    'break': 'def f(xs):\n    for x in xs:\n        break\n    return 0',
+    'continue': 'def f(xs):\n    for x in xs:\n        continue\n    return 0',
+    'nested-def': 'def f(x):\n    def g(y):\n        return y\n    return x',
+    'try': 'def f(x):\n    try:\n        y = x\n    finally:\n        y = x\n    return y',
+    'unreachable-statement': 'def f(x):\n    return x\n    x = 1',
+    'fallthrough': 'def f(x):\n    if x > 0:\n        return x',
+    'keyword-to-builtin': 'def f(x):\n    return fp.sqrt(x=x)',
+    'extra-keyword-to-builtin': 'def f(x):\n    return fp.sqrt(x, y=x)',
+    'keyword-to-range': 'def f(x):\n    return range(x, step=1)',
+    'keyword-to-min': 'def f(x):\n    return min(x, x, key=x)',
+    'hexfloat-arity': "def f(x):\n    return fp.hexfloat('0x1p0', 2)",
+    'rational-arity': 'def f(x):\n    return fp.rational(1)',
+    'rational-denominator-non-literal': 'def f(x):\n    return fp.rational(1, x)',
+    'digits-arity': 'def f(x):\n    return fp.digits(1, 2)',
+    'digits-mantissa-non-literal': 'def f(x):\n    return fp.digits(x, 1, 2)',
+    'digits-base-non-literal': 'def f(x):\n    return fp.digits(1, 1, x)',
+    'annotation-without-value': 'def f(x):\n    y: fp.Real\n    return x',
+    'subscript-of-call-target': 'def f(xs):\n    len(xs)[0] = 1\n    return xs',
+    'underscore-callee': 'def f(x):\n    return _(x)',
+    'augassign-underscore': 'def f(x):\n    _ += 1\n    return x',
+    'attribute-of-undefined': 'def f(x):\n    return nowhere.sqrt(x)',
+    'wrong-arity-builtin': 'def f(x):\n    return fp.sqrt(x, x)',
+    'range-arity': 'def f(x):\n    return range(x, x, x, x)',
+    'min-no-argument': 'def f(x):\n    return min()',
+    'empty-no-argument': 'def f(x):\n    return fp.empty()',
+    'hexfloat-non-string': 'def f(x):\n    return fp.hexfloat(x)',
+    'rational-non-literal': 'def f(x):\n    return fp.rational(x, 2)',
+    'digits-non-literal': 'def f(x):\n    return fp.digits(1, x, 2)',
+    'call-of-subscript': 'def f(xs):\n    return xs[0](1)',
+    'undefined-callee': 'def f(x):\n    return undefined_function(x)',
+    'unknown-attribute': 'def f(x):\n    return fp.no_such_thing(x)',
+    'attribute-of-call-in-callee-position': 'def f(x):\n    return fp.MPFloatContext(3).round(x)',
+    'walrus': 'def f(x):\n    return (y := x)',
+    'global-statement': 'def f(x):\n    global G\n    return x',
+    'delete': 'def f(x):\n    del x\n    return 0',
+    'raise': 'def f(x):\n    raise ValueError',
+    'import': 'def f(x):\n    import math\n    return x',
+    'await': 'async def f(x):\n    return x',
+    'yield': 'def f(x):\n    yield x',
+    'ellipsis-constant': 'def f(x):\n    return ...',
+    'bytes-constant': "def f(x):\n    return b'ab'",
+}
+
+def run_refused(rep, tmp):
+    """every program of REFUSED must be rejected when it is decorated (a parser / syntax-check error), not accepted with
+    some other meaning"""
+    for name, body in REFUSED.items():
+        path = os.path.join(tmp, f'refused_{name.replace("-", "_")}.py')
+        with open(path, 'w') as fh: fh.write('import fpy2 as fp\n\n@fp.fpy\n' + body + '\n')
+        rep.cov['evaluations'] += 1; rep.count('refused-programs')
+        try:
+            with contextlib.redirect_stdout(io.StringIO()):
+                load_one(path, 'refused')
+        except Exception as e:
+            rep.count('refused:' + type(e).__name__); continue
+        rep.violation(f'the front end accepts a program the language reference excludes ({name}):\n{body}',
+                      {'program': '@fp.fpy\n' + body, 'entry': 'f', 'args': None, 'ctx': None, 'impl': 'accepted', 'documented_semantics': 'refused by the front end', 'finding': None, 'oracle': 'refused'})
+
+# ------------------------------------------------------------------------------------------------ known findings
+
+def classify_all(mism: list[dict]) -> list:
+    """attach a finding id to exactly the shapes of the known defects of /repo: the mismatch must DISAPPEAR when the
+    source text is re-read with that one quirk of the implementation (c04front `quirks`), everything else unchanged.
+    `mism`: [{'src', 'm', 'got'}]; returns the finding id (or None) of each, one driver batch per quirk set"""
+    import ast as pyast
+    out = [None] * len(mism)
+    fronts: dict = {}
+    def front(path, quirks):
+        k = (path, tuple(sorted(quirks)))
+        if k not in fronts:
+            with contextlib.redirect_stdout(io.StringIO()):
+                mod = load_one(path, 'classify')
+            fronts[k] = c04front.Front(path, mod, quirks=quirks)
+        return fronts[k]
+    todo = []
+    for i, x in enumerate(mism):
+        src, m, got = x['src'], x['m'], x['got']
+        if got == 'err SyntaxError':
+            # C04-F4: a comparison chain of 3+ operands inside the iterable of a comprehension (walrus in a comprehension iterable)
+            try:
+                for n in pyast.walk(pyast.parse(src)):
+                    if isinstance(n, pyast.ListComp):
+                        for g in n.generators:
+                            if any(isinstance(k, pyast.Compare) and len(k.ops) >= 2 for k in pyast.walk(g.iter)): out[i] = 'C04-F4'
+            except Exception:
+                pass
+            continue
+        if got == 'err KeyError':
+            # C04-F3: a comprehension inside an assert message (ReachingDefs never visits the message)
+            try:
+                for n in pyast.walk(pyast.parse(src)):
+                    if isinstance(n, pyast.Assert) and n.msg is not None and any(isinstance(k, pyast.ListComp) for k in pyast.walk(n.msg)):
+                        out[i] = 'C04-F3'
+            except Exception:
+                pass
+            continue
+        todo.append(i)
+    cands = [('C04-F1', {'size-rounds'}), ('C04-F2', {'literal-via-float'}), ('C04-F1', {'size-rounds', 'literal-via-float'})]
+    for fid, quirks in cands:
+        lines, idx = [], []
+        for i in todo:
+            if out[i] is not None: continue
+            src, m = mism[i]['src'], mism[i]['m']
+            if 'size-rounds' in quirks and 'fp.size(' not in src: continue
+            try:
+                _, prog = front(m['path'], quirks).program(m['entry'])
+                lines.append(eval_line(m['entry'], prog, tuple(ev(a) for a in m['args']), ev(m['ctx']), fuel=100000)); idx.append(i)
+            except Exception:
+                continue
+        if not lines: continue
+        try: res = run_driver_robust(lines)
+        except Exception: continue
+        for i, r in zip(idx, res):
+            if canon(r) == mism[i]['got']: out[i] = fid
+    return out
+
+# ------------------------------------------------------------------------------------------------ coverage of the code under test
+
+def ranges(ls: list[int]) -> str:
+    out = []; i = 0
+    while i < len(ls):
+        j = i
+        while j + 1 < len(ls) and ls[j + 1] == ls[j] + 1: j += 1
+        out.append(str(ls[i]) if i == j else f'{ls[i]}-{ls[j]}'); i = j + 1
+    return ','.join(out)
+
+def coverage_report(cov) -> dict:
+    import ast as pyast
+    out = {}
+    data = cov.get_data()
+    tot_s = tot_m = 0
+    for f in sorted(data.measured_files()):
+        try:
+            _, stmts, _, missing, _ = cov.analysis2(f)
+        except Exception:
+            continue
+        if not stmts: continue
+        ana = cov._analyze(f)
+        nb = ana.numbers
+        miss = set(missing)
+        # statements inside function bodies only: the module was imported before tracing started, so `import` / `def` /
+        # table lines would all count as missing although they ran
+        never, partial = [], []
+        body_all: set = set()
+        try:
+            tree = pyast.parse(open(f).read())
+            for node in pyast.walk(tree):
+                if isinstance(node, (pyast.FunctionDef,)):
+                    body_lines = {n.lineno for b in node.body for n in pyast.walk(b) if isinstance(n, pyast.stmt)} & set(stmts)
+                    if not body_lines: continue
+                    body_all |= body_lines
+                    if body_lines <= miss: never.append(node.name)
+                    elif body_lines & miss: partial.append(f'{node.name}:{",".join(str(l) for l in sorted(body_lines & miss)[:12])}')
+        except Exception:
+            pass
+        short = f.split('/fpy2/')[-1]
+        bm = body_all & miss
+        out[short] = {'body_statements': len(body_all), 'body_missing': len(bm), 'body_cover_pct': round(100.0 * (len(body_all) - len(bm)) / max(len(body_all), 1), 1),
+                      'branches': nb.n_branches, 'partial_branches': nb.n_partial_branches,
+                      'never_executed_functions': never, 'partially_executed': partial[:80], 'missing_body_lines': ranges(sorted(bm))}
+        tot_s += len(body_all); tot_m += len(bm)
+    out['TOTAL'] = {'body_statements': tot_s, 'body_missing': tot_m, 'body_cover_pct': round(100.0 * (tot_s - tot_m) / max(tot_s, 1), 1)}
+    return out
+
+# ------------------------------------------------------------------------------------------------ main
+
+def build_jobs(R, tier, tmp):
+    """all program jobs (sources written to `tmp`), deterministic in R"""
+    jobs = []
+    here = os.path.dirname(os.path.abspath(__file__))
+    # corpus
+    cpath = os.path.join(here, 'corpus', 'c04_corpus.py')
+    with contextlib.redirect_stdout(io.StringIO()):
+        corp = load_one(cpath, 'corpus')
+    _MODS[cpath] = corp
+    ncorp = 12 if tier == 'quick' else 60
+    for fn in corp.ALL:
+        kinds = corp.KINDS.get(fn.name) if hasattr(corp, 'KINDS') else None
+        if kinds is None: kinds = arg_kinds(fn)
+        inputs = []
+        fixed = list(getattr(corp, 'INPUTS', {}).get(fn.name, []))
+        for args_src in fixed:
+            for cs in (None, R.choice(CALL_CTXS)):
+                inputs.append((list(args_src), cs))
+        for _ in range(ncorp):
+            inputs.append(([c04gen.input_src(R, k) for k in kinds], R.choice(CALL_CTXS)))
+        jobs.append({'id': f'corpus:{fn.name}', 'kind': 'corpus', 'path': cpath, 'entry': fn.name, 'inputs': inputs})
+    # first generation (its own S-expression printer: a third opinion)
+    G = Gen(R)
+    n1 = 50 if tier == 'quick' else 400
+    for pi in range(n1):
+        funcs = G.program(pi)
+        path = os.path.join(tmp, f'p{pi}.py')
+        with open(path, 'w') as fh:
+            fh.write('import fpy2 as fp\n\n' + '\n'.join(src_func(f) for f in funcs))
+        inputs = []
+        for _ in range(5 if tier == 'quick' else 8):
+            xs = [repr_in(R.choice(REALS)) for _ in range(R.choice([0, 1, 2, 3, 3]))]
+            inputs.append(([repr_in(R.choice(REALS)), repr_in(R.choice(REALS)), '[' + ', '.join(xs) + ']'], R.choice(CALL_CTXS)))
+        jobs.append({'id': f'gen1:p{pi}', 'kind': 'gen1', 'path': path, 'entry': funcs[-1]['name'], 'inputs': inputs,
+                     'gen_sx': '(' + ' '.join(sx_func(f) for f in funcs) + ')'})
+    stats1 = dict(G.stats)
+    # second generation
+    n2 = 400 if tier == 'quick' else 3000
+    stats2: dict[str, int] = {}
+    for pi in range(n2):
+        g = c04gen.Gen4(Prng(R.getrandbits(48), 'gen4'), str(pi))
+        p = g.program()
+        path = os.path.join(tmp, f'q{pi}.py')
+        with open(path, 'w') as fh: fh.write(p['source'])
+        inputs = []
+        for _ in range(6 if tier == 'quick' else 10):
+            inputs.append(([c04gen.input_src(R, t) for t in p['ptys']], R.choice(CALL_CTXS)))
+        jobs.append({'id': f'gen4:q{pi}', 'kind': 'gen4', 'path': path, 'entry': p['entry'], 'inputs': inputs})
+        for k, v in g.stats.items(): stats2[k] = stats2.get(k, 0) + v
+    with open(os.path.join(tmp, 'equiv.py'), 'w') as fh: fh.write(EQUIV_SRC)
+    for n in ('q_attr_plain', 'q_same_name_a', 'q_same_name_b'):
+        jobs.append({'id': f'equiv:{n}', 'kind': 'equiv', 'path': os.path.join(tmp, 'equiv.py'), 'entry': n,
+                     'inputs': [([c04gen.input_src(R, 'R')], R.choice(CALL_CTXS)) for _ in range(6)]})
+    only = os.environ.get('VERIF_C04_ONLY')
+    if only: jobs = [j for j in jobs if j['kind'] in only.split(',')]
+    return jobs, stats1, stats2
+
+def repr_in(x) -> str:
+    if isinstance(x, float):
+        if x != x: return "float('nan')"
+        if x in (float('inf'), float('-inf')): return "float('inf')" if x > 0 else "float('-inf')"
+    return repr(x)
+
+def execute(jobs, use_cov):
+    """run every job on the real side; forked workers unless coverage is being traced"""
+    if use_cov or NWORKERS <= 1:
+        return [run_program(j) for j in jobs]
+    import multiprocessing as mp, gc
+    ctx = mp.get_context('fork')
+    # the parent's heap is frozen before forking: a collection in a child would otherwise touch (and copy, page by page)
+    # every object inherited from the parent — measured 8x slower workers
+    gc.collect(); gc.freeze()
+    try:
+        with ctx.Pool(NWORKERS) as pool:
+            return pool.map(run_program, jobs, chunksize=2)
+    finally:
+        gc.unfreeze()
+
+def run_driver_robust(lines: list[str]) -> list[str]:
+    """`run_driver`, surviving a driver that dies on one line (the compiled model panics on an astronomically large
+    exponent, `Nat.pow exponent is too big`): that line is answered `model-crash` and the rest is resumed after it"""
+    import subprocess
+    out: list[str] = []
+    i = 0
+    while i < len(lines):
+        p = subprocess.run([str(DRV)], input='\n'.join(lines[i:]) + '\n', capture_output=True, text=True, timeout=3000)
+        got = p.stdout.split('\n')
+        if got and got[-1] == '': got.pop()
+        out += got
+        i += len(got)
+        if i < len(lines):
+            out.append('model-crash ' + p.stderr.strip()[-80:])
+            i += 1
+    return out[:len(lines)]
+
+def run_lean(lines: list[str]) -> list[str]:
+    """the Lean evaluator on every line; several driver processes side by side"""
+    if len(lines) < 1000 or NWORKERS <= 1: return run_driver_robust(lines)
+    import concurrent.futures as cf
+    k = min(6, NWORKERS)
+    step = (len(lines) + k - 1) // k
+    chunks = [lines[i:i + step] for i in range(0, len(lines), step)]
+    with cf.ThreadPoolExecutor(k) as ex:
+        outs = list(ex.map(run_driver_robust, chunks))
+    return [o for c in outs for o in c]
 
 def run(rep, tier, seed):
     # results with million-bit significands (computed precisions) are printed by this harness, not refused:
     # CPython's int->str digit limit would otherwise surface as a ValueError that is not the interpreter's
     if hasattr(sys, 'set_int_max_str_digits'): sys.set_int_max_str_digits(0)
     R = Prng(seed, 'C04')
-    nprog = 120 if tier == 'quick' else 1500
-    ninputs = 5 if tier == 'quick' else 8
-    G = Gen(R)
     tmp = tempfile.mkdtemp(prefix='fpyverif_c04_', dir='/var/tmp')
-    lines, meta = [], []
+    use_cov = os.environ.get('VERIF_COVERAGE') == '1'
+    cov = None
     try:
-        # corpus first: hand-written programs pinning documented rules at their edges
-        from xform import load_module, arg_kinds, gen_inputs
-        corp = load_module(os.path.join(os.path.dirname(__file__), 'corpus', 'c04_corpus.py'), 'fpyverif_C04_corpus')
-        CORPUS_REALS = [1.5, 0.1, 3.0, 2.0, 2.0 ** 11, 2.0 ** -30, 100.0, -7.0, 4.0, 1.0, 5.0, float('inf'), -0.0, 0.0, -0.0]
-        for fn in corp.ALL:
-            try:
-                entry, prog = export_program(fn)
-            except Unsupported as e:
-                rep.count('corpus-export-unsupported:' + str(e)[:40]); continue
-            rep.count('programs')
-            kinds = arg_kinds(fn)
-            for ii in range(10 if tier == 'quick' else 40):
-                args = tuple([R.choice(CORPUS_REALS) for _ in range(R.choice([0, 1, 2, 3, 4]))] if k == 'L' else R.choice(CORPUS_REALS) for k in kinds)
-                cs = R.choice(CALL_CTXS)
-                ctx = None if cs is None else eval(cs, {'fp': fp})
-                got = run_real(fn, args, ctx)
-                if got.startswith(('timeout', 'unsupported')): continue
-                lines.append(eval_line(entry, prog, args, ctx, fuel=100000))
-                meta.append((-1, corp.__file__, args, cs, got))
-        for pi in range(nprog):
-            funcs = G.program(pi)
-            path = os.path.join(tmp, f'p{pi}.py')
-            with open(path, 'w') as fh:
-                fh.write('import fpy2 as fp\n\n' + '\n'.join(src_func(f) for f in funcs))
-            try:
-                mod = load_one(path)
-            except Exception as e:   # the front end rejected a program the generator believes well-formed
-                rep.count('frontend-rejected:' + type(e).__name__)
-                rep.notes.append(f'front end rejected generated program p{pi}: {type(e).__name__}: {str(e)[:200]}') if len(rep.notes) < 5 else None
-                continue
-            main = funcs[-1]
-            fn = getattr(mod, main['name'])
-            prog = '(' + ' '.join(sx_func(f) for f in funcs) + ')'
-            # the same program as the real parser produced it (parser operator tables in the loop)
-            try:
-                _, prog_ast = export_program(fn)
-            except Unsupported as e:
-                prog_ast = None; rep.count('export-unsupported')
-            rep.count('programs')
-            if prog_ast is not None:
-                if not set(top_level(prog_ast)) <= set(top_level(prog)):   # (the export holds only the functions main reaches)
-                    rep.count('parser-vs-generator-ast-differs')
-                    rep.broke('correspondence', 'C04.parser', f'program p{pi}: AST produced by the real parser differs from the program text the generator wrote\nreal:{prog_ast}\ngen: {prog}')
-            for ii in range(ninputs):
-                xs = [R.choice(REALS) for _ in range(R.choice([0, 1, 2, 3, 3]))]
-                args = (R.choice(REALS), R.choice(REALS), xs)
-                cs = R.choice(CALL_CTXS)
-                ctx = None if cs is None else eval(cs, {'fp': fp})
-                got = run_real(fn, args, ctx)
-                if got.startswith(('timeout', 'unsupported')):
-                    rep.count('skipped:' + got.split()[0]); continue
-                lines.append(eval_line(main['name'], prog, args, ctx, fuel=100000))
-                meta.append((pi, path, args, cs, got))
-        model = run_driver(lines)
-        rep.cov['evaluations'] = len(lines)
-        for line, (pi, path, args, cs, got), mod_out in zip(lines, meta, model):
+        if use_cov:
+            import coverage
+            repo = os.environ.get('FPY_REPO', '/repo')
+            cov = coverage.Coverage(branch=True, include=[os.path.join(repo, p) for p in COV_INCLUDE], data_file=None)
+            cov.start()
+        t0 = time.time()
+        jobs, stats1, stats2 = build_jobs(R, tier, tmp)
+        rep.cov['t_generate_s'] = round(time.time() - t0, 1)
+        t0 = time.time()
+        results = execute(jobs, use_cov)
+        lines, meta = [], []
+        mod_dispatch = run_dispatch(rep, R, tmp, tier)
+        run_expected(rep, tmp)
+        run_refused(rep, tmp)
+        run_equiv(rep, R, tmp, tier)
+        run_eval_expr(rep, R, tmp, tier, lines, meta)
+        if cov is not None:
+            cov.stop()
+            rep.cov['interpreter_coverage'] = coverage_report(cov)
+        rep.cov['t_real_s'] = round(time.time() - t0, 1)
+        kinds: dict[str, int] = {}
+        srcs = {}
+        for job, res in zip(jobs, results):
+            for k, v in res['counts'].items(): rep.count(k, v)
+            for nt in res['notes']:
+                if len(rep.notes) < 8: rep.notes.append(nt)
+            for b in res['broke']: rep.broke(*b)
+            if res.get('f2'):
+                rep.violation(f"program {job['id']}: a numeric literal does not denote the number it spells: {res['f2'][:300]}",
+                              {'program': open(job['path']).read() if job['kind'] != 'corpus' else f"corpus program {job['entry']}", 'entry': job['entry'], 'args': None, 'ctx': None,
+                               'impl': res['f2'], 'documented_semantics': 'numerical constants are interpreted as-is (E-Val: the exact real the literal denotes)', 'finding': 'C04-F2', 'oracle': 'parser-text'})
+            for k, v in res['kinds'].items(): kinds[k] = kinds.get(k, 0) + v
+            rep.count('programs:' + job['kind'], 1)
+            for r in res['runs']:
+                if r is None: continue
+                lines.append(r['line'])
+                meta.append({'kind': job['kind'], 'id': job['id'], 'path': job['path'], 'entry': job['entry'], 'args': r['args'], 'ctx': r['ctx'], 'got': r['got'],
+                             'front_is': res.get('front_is')})
+        if os.environ.get('VERIF_C04_DUMP'):
+            with open(os.environ['VERIF_C04_DUMP'], 'w') as fh: json.dump({'lines': lines, 'meta': meta}, fh)
+        t0 = time.time()
+        model = run_lean(lines)
+        rep.cov['t_lean_s'] = round(time.time() - t0, 1)
+        rep.cov['evaluations'] += len(lines)
+        mism = []
+        for line, m, mod_out in zip(lines, meta, model):
             rep.distinct.add(line)
+            got = canon(m['got'])
+            if mod_out.startswith('model-crash'):
+                rep.count('skipped:model-crash'); continue
             rep.count('outcome:' + (got.split()[1] if got.startswith('err') else 'ok'))
-            rep.count('callctx:' + str(cs))
+            rep.count('callctx:' + str(m['ctx']))
             if got != mod_out:
-                # the Lean evaluator is the independent reading of the documented semantics the property asks for:
-                # a run on which the implementation returns something else is a failing input of the property itself
-                src = open(path).read()
-                rep.violation(f'the interpreter returns {got[:90]} but the documented semantics (Lean evaluator) gives {mod_out[:90]}',
-                              {'program': src if pi >= 0 else f'corpus program run by line: {line[:200]}', 'args': repr(args), 'ctx': cs,
-                               'impl': got, 'documented_semantics': mod_out, 'line': line, 'finding': None})
-            if len(rep.cov['samples']) < 4:
-                rep.sample({'source': open(path).read(), 'args': repr(args), 'ctx': cs, 'impl': got, 'model': mod_out})
-        for k, v in G.stats.items(): rep.count('gen:' + k, v)
+                src = srcs.get(m['path'])
+                if src is None: src = srcs[m['path']] = open(m['path']).read()
+                mism.append({'src': src, 'm': m, 'got': got, 'mod_out': mod_out, 'line': line})
+            if len(rep.cov['samples']) < 4 and m['kind'] == 'gen4':
+                rep.sample({'source': open(m['path']).read(), 'args': m['args'], 'ctx': m['ctx'], 'impl': got, 'model': mod_out})
+        fids = classify_all(mism) if mism else []
+        for x, fid in zip(mism, fids):
+            # the Lean evaluator is the independent reading of the documented semantics the property asks for:
+            # a run on which the implementation returns something else is a failing input of the property itself
+            m, got, mod_out, src = x['m'], x['got'], x['mod_out'], x['src']
+            what = 'BytecodeInterpreter.eval_expr' if m['kind'] == 'eval_expr' else 'the interpreter'
+            rep.violation(f'{what} returns {got[:90]} but the documented semantics (Lean evaluator) gives {mod_out[:90]}',
+                          {'program': src if m['kind'] != 'corpus' else f'corpus program {m["entry"]} of {m["path"]}', 'path': m['path'] if m['kind'] == 'corpus' else None,
+                           'entry': m['entry'], 'args': m['args'], 'ctx': m['ctx'], 'impl': got, 'documented_semantics': mod_out, 'line': x['line'], 'finding': fid,
+                           'oracle': m['kind']})
+        for k, v in stats1.items(): rep.count('gen:' + k, v)
+        for k, v in stats2.items(): rep.count('gen4:' + k, v)
+        rep.cov['features_never_generated'] = [f for f in c04gen.FEATURES if f not in stats2]
+        rep.cov['ast_node_kinds'] = node_kind_table(kinds)
+    finally:
+        if cov is not None:
+            try: cov.stop()
+            except Exception: pass
+        shutil.rmtree(tmp, ignore_errors=True)
+    rep.cov['rule'] = ('FPy source text from (a) a hand-written corpus, (b) the first-generation type-directed generator, (c) the coverage-driven second generation '
+                       '(every statement / expression node kind, every operator name of the interpreter tables the model decides, all literal spellings, every context '
+                       'constructor with positional / keyword / computed arguments, captured free variables, nested and multi-index lists, aliasing through callees and results, '
+                       'comprehensions with several generators and tuple targets incl. shadowing, slices with every bound combination, zip/enumerate/range in every arity incl. '
+                       'negative steps, min/max/sum on empty and one-element lists, unguarded error paths); each program is run on the real interpreter and, translated by an '
+                       'independent front end, on the Lean evaluator; the real parser\'s AST must print to the same text; inputs: floats incl. specials, ints, Fractions, Float/RealFloat '
+                       'objects, nested lists, tuples, contexts, bools; call ctx in {absent, FP32, REAL, narrow float / fixed}; MPFR-valued operations are checked for dispatch against '
+                       'a direct call of fpy2.ops by name; eval_expr against the model; distinct = distinct (program, input, ctx) lines; verdict = equality of value (structural, sign of zero) or error kind')
+    rep.assumptions += ['the Lean evaluator was written from docs/source/dev/semantics.rst + derived-semantics.rst; it is the independent evaluator the property asks for',
+                        'the source-text front end (harness/c04front.py) is the harness\'s own reading of the language reference; desugarings into modelled constructs are listed in its header',
+                        'MPFR-valued operations / constants, isnormal, logb: only the dispatch (which operation, under which context) is checked, against fpy2.ops called directly',
+                        'contexts returned as values are compared as opaque (c)']
+
+# every concrete Expr / Stmt class of fpy2/ast/fpyast.py -> the template(s) that exercise it
+TEMPLATES = {
+    'Var': 'every program', 'BoolVal': 'gen4 boolean const; corpus literal_spellings', 'ForeignVal': 'corpus statements_misc, assert_messages, free_variables (G_TEXT); gen4 assert-msg',
+    'Decnum': 'gen4 LITS; corpus literal_spellings / literal_signs', 'Hexnum': 'gen4 LITS hexfloat; corpus literal_spellings', 'Integer': 'gen4 LITS; corpus literal_signs',
+    'Rational': 'gen4 LITS rational; corpus literal_spellings', 'Digits': 'gen4 LITS digits; corpus literal_spellings',
+    'ConstNan': 'gen4 nullary (desugars to the NaN literal); dispatch d0_nan', 'ConstInf': 'gen4 nullary (desugars to the +inf literal); dispatch d0_inf',
+    'Add': 'gen4 BINARY', 'Sub': 'gen4 BINARY', 'Mul': 'gen4 BINARY', 'Div': 'gen4 BINARY', 'Mod': 'gen4 mod (%), augassign %=', 'Pow': 'gen4 pow (** and fp.pow, literal integer exponents)',
+    'Abs': 'gen4 UNARY abs/fp.fabs', 'Sqrt': 'gen4 UNARY', 'Cbrt': 'gen4 UNARY', 'Neg': 'gen4 UNARY; corpus neg_abs_narrow_range', 'Fma': 'gen4 fma', 'Copysign': 'gen4 named-binary',
+    'Fdim': 'gen4 named-binary', 'Hypot': 'gen4 named-binary', 'Fmod': 'gen4 named-binary', 'Remainder': 'gen4 named-binary', 'Max': 'gen4 minmax (max / fp.fmax, 2-4 operands)',
+    'Min': 'gen4 minmax (min / fp.fmin)', 'AMax': 'gen4 minmax-list; corpus minmax_list', 'AMin': 'gen4 minmax-list; corpus minmax_list', 'Sum': 'gen4 sum-list; corpus reductions',
+    'Ceil': 'gen4 UNARY', 'Floor': 'gen4 UNARY', 'Trunc': 'gen4 UNARY', 'RoundInt': 'gen4 UNARY', 'NearbyInt': 'gen4 UNARY', 'Round': 'gen4 UNARY', 'RoundAt': 'gen4 round_at (via the operator table)',
+    'Cast': 'gen4 cast (fp.cast / fp.round_exact); corpus casts', 'IsFinite': 'gen4 PREDS', 'IsInf': 'gen4 PREDS', 'IsNan': 'gen4 PREDS', 'Signbit': 'gen4 PREDS',
+    'Not': 'gen4 boolean', 'And': 'gen4 boolean; corpus short_circuits', 'Or': 'gen4 boolean; corpus short_circuits', 'AnyOf': 'gen4 anyall; corpus reductions, bool_lists', 'AllOf': 'gen4 anyall',
+    'Len': 'gen4 len', 'Size': 'gen4 size (size(xs, 0) = len(xs); C04-F1); dispatch d_dim, d_size1', 'Range1': 'gen4 range_expr', 'Range2': 'gen4 range2', 'Range3': 'gen4 range3 / neg-step',
+    'Fst': 'gen4 fst-snd (M-Tuple through a one-element comprehension)', 'Snd': 'gen4 fst-snd', 'Empty': 'gen4 empty; corpus empty_and_size', 'Zip': 'gen4 zipcomp / zip3 / for zip; corpus zips',
+    'Enumerate': 'gen4 enumcomp / for enum; corpus zips', 'Call': 'gen4 helper calls, context constructors, print; corpus primitives (twin)', 'Attribute': 'gen4 contexts (fp.FP32, fp.RM.RNE …)',
+    'Compare': 'gen4 cmp / chain / eq-mixed; corpus structural_equality', 'TupleExpr': 'gen4 pair / tuple returns', 'ListExpr': 'gen4 lst lit', 'ListComp': 'gen4 comp / comp2 / zipcomp',
+    'ListRef': 'gen4 index / index2', 'ListSlice': 'gen4 slice-forms; corpus slices', 'IfExpr': 'gen4 ite', 'Assign': 'gen4 assign / tuplepat / augassign / annassign',
+    'IndexedAssign': 'gen4 iassign / multi-index-assign', 'If1Stmt': 'gen4 if1', 'IfStmt': 'gen4 if / elif', 'WhileStmt': 'gen4 while', 'ForStmt': 'gen4 for (list, range, enumerate, zip, rows, pairs)',
+    'ContextStmt': 'gen4 with / withas', 'AssertStmt': 'gen4 assert / assert-msg', 'EffectStmt': 'gen4 effect / print / callmut', 'ReturnStmt': 'every program', 'PassStmt': 'gen4 pass',
+}
+DISPATCH_ONLY = {'Acos', 'Asin', 'Atan', 'Cos', 'Sin', 'Tan', 'Acosh', 'Asinh', 'Atanh', 'Cosh', 'Sinh', 'Tanh', 'Exp', 'Exp2', 'Expm1', 'Log', 'Log10', 'Log1p', 'Log2',
+                 'Erf', 'Erfc', 'Lgamma', 'Tgamma', 'Atan2', 'Logb', 'IsNormal', 'Dim', 'ConstPi', 'ConstE', 'ConstLog2E', 'ConstLog10E', 'ConstLn2', 'ConstPi_2',
+                 'ConstPi_4', 'Const1_Pi', 'Const2_Pi', 'Const2_SqrtPi', 'ConstSqrt2', 'ConstSqrt1_2'}
+
+def node_kind_table(kinds: dict) -> dict:
+    """every concrete Expr / Stmt class of fpy2/ast/fpyast.py (mechanical walk of the module) -> how this run covered it"""
+    from fpy2.ast import fpyast as A
+    import inspect as ins
+    abstract = {'Expr', 'Stmt', 'ValueExpr', 'RealVal', 'RationalVal', 'NaryExpr', 'NullaryOp', 'UnaryOp', 'NamedUnaryOp', 'BinaryOp', 'NamedBinaryOp', 'TernaryOp',
+                'NamedTernaryOp', 'NaryOp', 'NamedNaryOp'}
+    out = {}
+    for name, cls in sorted(vars(A).items()):
+        if not (ins.isclass(cls) and issubclass(cls, (A.Expr, A.Stmt)) and name not in abstract): continue
+        if name in DISPATCH_ONLY:
+            out[name] = 'not modelled (MPFR-valued, or depends on the context a value remembers): dispatch template d0_/d1_/d2_<op> — interpreter under C vs fpy2.ops.<op>(…, ctx=C) by name'
+        elif kinds.get(name):
+            out[name] = f'modelled, covered by {TEMPLATES.get(name, "?")}: {kinds[name]} nodes in this run (real interpreter vs Lean evaluator)'
+        else:
+            out[name] = f'NOT EXECUTED in this run (template: {TEMPLATES.get(name, "none")})'
+    return out
+
+# ------------------------------------------------------------------------------------------------ replay
+
+def replay(rep, data):
+    """re-run the recorded failing inputs: the program text, the arguments and the evaluator line are in the replay file"""
+    if hasattr(sys, 'set_int_max_str_digits'): sys.set_int_max_str_digits(0)
+    from common import finish
+    tmp = tempfile.mkdtemp(prefix='fpyverif_c04r_', dir='/var/tmp')
+    rep.seed = data.get('seed', 0); rep.tier = data.get('tier', 'quick')
+    try:
+        todo = [v for v in data.get('violations', []) if v.get('line') and v.get('entry')]
+        if not todo:
+            # nothing replayable input by input (oracles without an evaluator line): deterministic re-run of the recorded seed / tier
+            run(rep, rep.tier, rep.seed)
+        for i, v in enumerate(todo):
+            if v.get('path'): path = v['path']
+            else:
+                path = os.path.join(tmp, f'r{i}.py')
+                with open(path, 'w') as fh: fh.write(v['program'])
+            with contextlib.redirect_stdout(io.StringIO()):
+                mod = load_one(path, f'replay{i}')
+            fn = getattr(mod, v['entry'])
+            args = tuple(ev(a) for a in v['args']); ctx = ev(v['ctx'])
+            if v.get('oracle') == 'eval_expr':
+                from fpy2.interpret import get_default_interpreter
+                from fpy2.utils import NamedId
+                try: got = 'ok ' + show_val(get_default_interpreter().eval_expr(fn.ast.body.stmts[-1].expr, {NamedId(f'a{j}'): a for j, a in enumerate(args)}, ctx))
+                except Exception as e:
+                    from numcanon import err_name
+                    got = 'err ' + err_name(e)
+            else:
+                with contextlib.redirect_stdout(io.StringIO()):
+                    got = run_real(fn, args, ctx)
+            got = canon(got)
+            mod_out = run_driver([v['line']])[0]
+            rep.cov['evaluations'] += 1
+            print(f"replay {i}: {v['entry']} args={v['args']} ctx={v['ctx']}\n   interpreter: {got[:200]}\n   documented : {mod_out[:200]}")
+            if got != mod_out:
+                rep.violation(f'the interpreter returns {got[:90]} but the documented semantics (Lean evaluator) gives {mod_out[:90]}', dict(v, impl=got, documented_semantics=mod_out))
     finally:
         shutil.rmtree(tmp, ignore_errors=True)
-    rep.cov['rule'] = ('type-directed random programs (nested/sequential with, loops, branches, early returns, helper calls with/without declared context, '
-                       'list aliasing + mutation through aliases and callees, comprehensions, zip/enumerate/range/slices, min/max/sum/any/all, chained comparisons) '
-                       'printed as FPy source AND as S-expression; inputs from a pool incl. specials and unrepresentable values; call ctx in {absent, FP32, REAL, narrow}; '
-                       'distinct = distinct (program, input, ctx) lines; the verdict is equality of the returned value (structural, sign of zero) or error kind')
-    rep.assumptions += ['the Lean evaluator was written from docs/source/dev/semantics.rst + derived-semantics.rst; it is the independent evaluator the property asks for',
-                        'static context constructor expressions are evaluated by the harness (langexport.static_py) when exporting the real AST']
+    code = finish(rep, {'obligations': 1, 'discharged': 0, 'checker_cmd': 'skipped (replay)', 'trusted_base': []})
+    sys.exit(code)
